@@ -57,6 +57,19 @@ EndDemands(e) ==
     <<"C19.released",  ~qHeld>>
   >>
 
+\* r.bulk: 2^log2n ids from e.goroutines goroutines, summarised by the harness (1 id in 256 kept for
+\* the duplicate count; OR and AND of all ids)
+BulkDemands(e) ==
+  <<
+    <<"C19.nopanic",   ~e.panic>>,
+    <<"C19.complete",  e.done = 2 ^ e.log2n \/ e.done = (2 ^ e.log2n \div e.goroutines) * e.goroutines>>,
+    <<"C19.version",   e.bad = 0>>,
+    <<"C19.distinct",  e.dups = 0>>,
+    <<"C19.bits",      \A p \in 1..32, k \in 0..3 : FreeBit(p, k) =>
+                          ((e.or[p] \div (2 ^ k)) % 2 = 1 /\ (e.and[p] \div (2 ^ k)) % 2 = 0)>>,
+    <<"C19.variant",   e.or[13] = 4 /\ e.and[13] = 4 /\ e.or[17] \div 4 = 2 /\ e.and[17] \div 4 = 2>>
+  >>
+
 RandomStep(e) ==
   CASE e.op = "r.reset" ->
          /\ qHeld' = FALSE /\ qPending' = <<>> /\ qStart' = l /\ qCount' = [exits |-> 0, drawn |-> 0] /\ Note(<<>>)
@@ -85,8 +98,10 @@ RandomStep(e) ==
                     <<"C19.variant", IsID(e.id) /\ Variant(e.id) = 1>> >>)
     [] e.op = "r.panic" ->
          /\ UNCHANGED qvars /\ Note(<< <<"C19.nopanic", FALSE>> >>)     \* RandomID panicked in a goroutine
+    [] e.op = "r.bulk" ->
+         /\ UNCHANGED qvars /\ Note(BulkDemands(e))
     [] e.op = "r.end" ->
          /\ UNCHANGED qvars /\ Note(EndDemands(e))
 
-IsRandomOp(e) == e.op \in {"r.reset", "r.enter", "r.exit", "r.drawn", "r.ret", "r.end", "r.panic"}
+IsRandomOp(e) == e.op \in {"r.bulk", "r.reset", "r.enter", "r.exit", "r.drawn", "r.ret", "r.end", "r.panic"}
 =============================================================================
